@@ -471,14 +471,56 @@ static void total_suite(vf::Rng& r) {
     }
     check_total(t, gen);
   }
+  // numeric-literal spellings: every marker x every prefix of every spelling x every way the literal can end
+  // (end of text, white space, a construct character, a hex digit, a letter), in both byte orders. Whatever a spelling
+  // means, the parser must come back without a sanitizer report, deterministically, with a mask of the right size.
+  {
+    static const char* MARK[] = {"%", "%%", "#", "##", "###", "####"};
+    static const char* SPELL[] = {
+        "+1.5", "-1.5", "+.5e+1", "-5.E-1", "007.50", "-000", "+0", "-0.0e-0", "1e+20", "1E-20", "1e+007", "1e-", "1e+", "1.e", ".e5", ".", "+.", "-", "+", "+-1", "--1", "++1",
+        "1e39", "-1e39", "3.4028235677973366e38", "123456789012345678901234567890123456789012", "1e309", "-1.8e308", "1e400", "1e999999", "1e99999999999999999999", "1e-99999999999999999999",
+        "1e-46", "-1e-46", "1.4e-45", "4.9e-324", "2e-324", "-1e-400", "1e2147483648", "1e-2147483649", "1e4294967297", "1e18446744073709551617",
+        "inf", "-inf", "+inf", "INF", "Inf", "infinity", "-Infinity", "INFINITYx", "infinit", "in", "nan", "-nan", "+NaN", "NAN", "nan()", "nan(0x7ff)", "nan(abc_1)", "nan(", "nan(1", "nan(1 )", "na",
+        "0x1.8p1", "0X1P-1", "-0x.8p+3", "+0x1p-149", "0x1.8", "0x1.", "0x.p1", "0x", "0xp1", "0x1p", "0x1p+", "0x1p-", "0x1.fffffffffffffp1023", "0x1p1024", "0x1p-1075", "0x1p99999999999999999999", "0x1p-99999999999999999999",
+        "0x1.ffffffffffffffffffffffffffffffffffffffffp0", "0x0.00000000000000000000000000000000000001p200",
+        "+5", "+0x1F", "-0x10", "0X1f", "010", "08", "0", "-0", "256", "-129", "65536", "4294967296", "18446744073709551615", "18446744073709551616", "-18446744073709551616", "-9223372036854775809",
+        "99999999999999999999999999999999999999", "0b101", "0o17", "1_000", "1,5", "1'000", "0x1'F", "1.5f", "1.5L", "1e5f", "0x1p1f"};
+    static const char* ENDS[] = {"", " ", "\n", "?", "$", "\"", "'", "/", "//", "#", "%", "0", "f", "e", "p", "x", ".", "+", "-", "g", ")", "\x80"};
+    for (const char* mk : MARK)
+      for (const char* sp : SPELL) {
+        if (!C->mine(idx++)) continue;
+        size_t L = strlen(sp);
+        for (size_t cut = 1; cut <= L; cut++)
+          for (const char* en : ENDS)
+            for (int be = 0; be < 2; be++) {
+              string t = string(be ? "$" : "") + mk + string(sp, cut) + en;
+              check_total(t, cut == L ? "number-spelling" : "number-spelling-prefix");
+              if (be == 0 && en[0] == ' ') check_total("A1 ?" + t + "5A\"q\" " + mk + string(sp, cut), "number-spelling-embedded");
+            }
+      }
+  }
   // long inputs: the parser must stay linear (a quadratic parser would trip the watchdog)
   if (C->mine(idx++)) {
     size_t reps = C->qt<size_t>(20000, 400000);
-    for (const char* unit : {"#", "%", "\"\\", "'a", "/*", "?0", "$##1 ", "f"}) {
+    for (const char* unit : {"#", "%", "\"\\", "'a", "/*", "?0", "$##1 ", "f", "%+", "%%-", "%1e", "%0x", "%.", "%nan(", "%inf", "#+", "#0x", "%+1 ", "%%1e999 ", "%1e-999 ", "%0x1p1 ", "%nan ", "#+1 "}) {
       string t;
       for (size_t k = 0; k < reps; k++) t += unit;
       check_total(t, "long-repeat");
     }
+  }
+  // one very long numeric literal: long digit strings in the integer part, the fraction, the exponent, a hex significand
+  // and a nan(...) payload, after each marker
+  {
+    size_t n = C->qt<size_t>(20000, 100000);
+    struct Long { const char* head; char fill; const char* tail; };
+    static const Long LONGS[] = {{"", '9', ""}, {"+", '1', ".5"}, {"0.", '0', "1"}, {"-.", '7', "e5"}, {"1e", '9', ""}, {"1e-", '9', ""}, {"1e+", '0', "5"}, {"", '0', "5"},
+        {"0x", 'f', "p1"}, {"0x1.", 'a', "p-5"}, {"0x1p", '9', ""}, {"0x1p-", '9', ""}, {"nan(", 'a', ")"}, {"nan(", '1', ""}, {"-", '0', ""}, {"0x", '0', "1"}};
+    for (const char* mk : {"%", "%%", "#", "####"})
+      for (const Long& lg : LONGS) {
+        if (!C->mine(idx++)) continue;
+        for (const char* en : {"", " 00"})
+          check_total(string(mk) + lg.head + string(n, lg.fill) + lg.tail + en, "long-number");
+      }
   }
 }
 
